@@ -366,6 +366,7 @@ pub fn running_time(rt: u8) -> RunningTime {
 // ------------------------------------------------------------------------------------------------
 // dynamic systems: custom accessor, real by-id borrows of exactly the declared ids
 
+#[derive(Clone)]
 pub struct HAcc {
     pub ctx: Arc<Ctx>,
     pub idx: usize,
@@ -459,7 +460,13 @@ impl<'a> System<'a> for DynSys {
     }
 
     fn accessor<'b>(&'b self) -> AccessorCow<'a, 'b, Self> {
-        AccessorCow::Ref(&self.acc)
+        // both ways of handing out an accessor: a reference to a field, or an owned value built for
+        // the call (its content differs from instance to instance of this one type)
+        if self.acc.idx % 2 == 1 {
+            AccessorCow::Owned(self.acc.clone())
+        } else {
+            AccessorCow::Ref(&self.acc)
+        }
     }
 
     fn setup(&mut self, world: &mut World) {
